@@ -51,7 +51,9 @@ impl Iterator for IdxCheckIter<'_> {
     type Item = (usize, usize);
 
     fn next(&mut self) -> Option<(usize, usize)> {
-        if self.idx >= self.end_coor[self.current_chr] {
+        // (a loop: contigs without any sequence end where the previous one does)
+        while self.current_chr < self.end_coor.len() && self.idx >= self.end_coor[self.current_chr]
+        {
             self.current_chr += 1;
         }
         if self.current_chr < self.end_coor.len() {
